@@ -344,6 +344,13 @@ mut('ok-c04-while-condition', ['C04'], PR,
     [("                if self._nextMsgLen == 0 or buffer_len < self._nextMsgLen:\n                    # no complete message buffered\n                    break\n",
       "                if not self._nextMsgLen:\n                    break\n                if buffer_len < self._nextMsgLen:\n                    break\n")], kind='benign')
 
+mut('ok-c07-repeated-data-guard-per-mechanism', ['C07'], AU,
+    [("        self.authMech = self.authOrder.pop()\n",
+      "        self.authMech = self.authOrder.pop()\n        self.challenged = False\n"),
+     ("    def _auth_DATA(self, line):\n\n        if self.authMech == b'EXTERNAL':",
+      "    def _auth_DATA(self, line):\n        if getattr(self, 'challenged', False):\n            raise DBusAuthenticationFailed('Unexpected repeated DATA')\n        self.challenged = True\n\n        if self.authMech == b'EXTERNAL':")],
+    kind='benign', note='loop guard against repeated DATA, reset when the next mechanism is offered (the sound twin of seed C07-r12)')
+
 # ---- C10 ------------------------------------------------------------------
 OB = 'txdbus/objects.py'
 mut('c10-invalidargs-no-reply', ['C10'], OB,
@@ -379,6 +386,10 @@ mut('ok-c10-sig-normalise', ['C10'], OB,
       "        msig = msg.signature or ''\n        esig = m.sigIn or ''\n\n        if not esig == msig:")], kind='benign')
 
 # ---- C18 ------------------------------------------------------------------
+mut('ok-c18-member-fast-path-ascii-alnum', ['C18'], M,
+    [("        if mbr_re.search(n):\n            raise Exception(\n                'Names contains a character outside the set [A-Za-z0-9_]')",
+      "        if not (n.isascii() and n.isalnum()) and mbr_re.search(n):\n            raise Exception(\n                'Names contains a character outside the set [A-Za-z0-9_]')")],
+    kind='benign', note='sound twin of seed C18-r12: the regex is skipped only for ASCII alphanumerics')
 twin('c18-prefix-validators', ['C18'], '3859009', ['C18.D1'], 'pre-fix twin: trailing dot / stray colon accepted')
 mut('c18-member-regex-dot', ['C18'], M,
     [("mbr_re = re.compile('[^A-Za-z0-9_]')", "mbr_re = re.compile('[^A-Za-z0-9_.]')")], ['C18.D1'])
@@ -422,6 +433,10 @@ mut('c03-serial-per-instance', ['C03'], MS,
     [("            DBusMessage._nextSerial += 1\n", "            self._nextSerial += 1\n")], ['C03.D5'])
 
 # ---- C17 ------------------------------------------------------------------
+mut('ok-c17-setter-local-alias-of-storage', ['C17', 'C16'], 'txdbus/objects.py',
+    [("        instance._dbusProperties[self.key] = value\n",
+      "        props = instance._dbusProperties\n        props[self.key] = value\n")],
+    kind='benign', note='the storage dict reached through a local name')
 twin('c17-prefix-getall-break', ['C17'], 'd3c47f8', ['C17.D4'], 'pre-fix twin')
 mut('c17-getall-only-read', ['C17'], OB,
     [("            if p.iprop.access != 'write' and p.pname not in r:", "            if p.iprop.access == 'read' and p.pname not in r:")], ['C17.D1'])
@@ -481,6 +496,10 @@ mut('c12-short-body-matches', ['C12'], RT,
 
 # ---- C16 ------------------------------------------------------------------
 IN = 'txdbus/introspection.py'
+mut('ok-c16-children-dedup-as-guard-clause', ['C16'], IN,
+    [("            if path and path not in matches:\n                matches.append(path)",
+      "            if not path or path in matches:\n                continue\n            matches.append(path)")],
+    kind='benign', note='the de-duplication test written as a guard clause with continue')
 twin('c16-prefix-managed-siblings', ['C16'], '97a5019', ['C16.D3'], 'pre-fix twin')
 twin('c16-prefix-root-empty-child', ['C16'], '64e45c7', ['C16.D4'], 'pre-fix twin')
 mut('c16-managed-includes-self', ['C16'], OB,
@@ -542,6 +561,22 @@ mut('ok-c16-intro-set-comprehension', ['C16'], IN,
     note='equivalent rewrite with a set comprehension (child values not extractable: advisory only)')
 
 # ---- C15 ------------------------------------------------------------------
+mut('ok-c15-reader-dedupes-within-kind-by-interface-table', ['C15'], IN,
+    [("        self.iface.addMethod(self.member)",
+      "        if self.member.name not in self.iface.methods:\n            self.iface.addMethod(self.member)")],
+    kind='benign', note='first declaration of a METHOD wins, looked up in the interface\'s own method table (sound twin of seed C15-r12)')
+mut('ok-c15-reader-dedupes-within-kind-own-set', ['C15'], IN,
+    [("            self.iface = interface.DBusInterface(iname)\n",
+      "            self.iface = interface.DBusInterface(iname)\n            self.seenSignals = set()\n"),
+     ("        self.iface.addSignal(self.member)",
+      "        if self.member.name in self.seenSignals:\n            return\n        self.seenSignals.add(self.member.name)\n        self.iface.addSignal(self.member)")],
+    kind='benign', note='per-kind set, emptied with every new interface')
+mut('c15-reader-dedupe-set-never-emptied', ['C15'], IN,
+    [("        self.iface = None\n        self.skip = False\n",
+      "        self.iface = None\n        self.seenSignals = set()\n        self.skip = False\n"),
+     ("        self.iface.addSignal(self.member)",
+      "        if self.member.name in self.seenSignals:\n            return\n        self.seenSignals.add(self.member.name)\n        self.iface.addSignal(self.member)")],
+    ['C15.D1'], note='per-kind set that survives from one interface to the next: the second interface loses its same-named signal')
 IF = 'txdbus/interface.py'
 mut('c15-arg-no-direction', ['C15'], IF,
     [("                        '      <arg direction=\"out\" type=\"%s\"/>' %", "                        '      <arg type=\"%s\"/>' %")], ['C15.D1'])
